@@ -109,6 +109,7 @@ ArrayStep(objs, opts, call) ==
          \* Array(dtype, <bits / bytes initialiser>): the data is taken as it is
          LET dn == call.sa[1]  dl == call.ia[1] IN
          IF ~DtypeOKForArray(dn, dl) THEN Raises({"ValueError"})
+         ELSE IF call.xs[1].k = "lit" /\ call.xs[1].kind \in {"bin", "hex", "oct"} THEN Raises({"TypeError"})   \* a str is refused
          ELSE OkArr(dn, dl, XV(objs, call.xs[1]))
     [] op = "ascaled" ->
          \* Array(Dtype(name, n, scale = 2^k), items): sa = <<name, how>>, ia = <<n, k>>, va = items.  Every item is
